@@ -122,8 +122,24 @@ def gen_source_model():
         ok_all = ok_all and rc == 0
         if rc != 0:
             lines.append("%s -> CRASHED: %s" % (t, out.strip()[-200:].replace("\n", " ")))
-        lines += [l for l in out.strip().split("\n") if "->" in l]
+        lines += ["[%s] %s" % (t, l) for l in out.strip().split("\n") if "->" in l]
     return ok_all, lines
+
+
+# which translator regenerates the definitions a tie module is about
+TIE_GEN = {"TieIte": "gen_source_model.py", "TieFF": "gen_source_model.py", "TieSem": "gen_source_model.py",
+           "TieOrders": "gen_orders.py", "TieFfi": "gen_ffi.py", "TieVTree": "gen_vtree.py", "TieCnfOrd": "gen_cnford.py",
+           "TieBddCore": "gen_bddcore.py", "TieTables": "gen_tables.py", "TieOptim": "gen_optim.py",
+           "TieCompile": "gen_compile.py", "TieSddCore": "gen_sddcore.py", "TieCnfUp": "gen_cnfup.py",
+           "TieDnnf": "gen_dnnf.py", "TieSddQ": "gen_sddq.py", "TieScratch": "gen_scratch.py", "TieCli": "gen_cli.py"}
+
+
+def unavailable_for(cfg, translated):
+    """status lines of functions that left a translator's grammar, restricted to the translators
+    whose tie modules this property claims"""
+    gens = {TIE_GEN[m.split(".")[-1].replace("Source", "")] for m in cfg["modules"]
+            if m.split(".")[-1].replace("Source", "") in TIE_GEN}
+    return [t for t in translated if "UNTRANSLATED" in t and any(t.startswith("[%s]" % g) for g in gens)]
 
 
 def lake_build(targets):
@@ -312,10 +328,21 @@ def run_property(pid, tier, seed):
                 if f.endswith(".case"):
                     corpus_lines += [l for l in open(os.path.join(corpus_dir, f)).read().split("\n")
                                      if l.strip() and not l.startswith("#")]
+        # ESCALATION: a function of this property's tie modules whose source left the translator's
+        # grammar is no longer covered by a kernel-checked tie; that is not an alarm (DESIGN 9.7c),
+        # but the quick tier then compensates with the thorough tier's sizes for the streams (capped),
+        # so that the missing proof obligation is replaced by a wider search, not by silence
+        unavailable = unavailable_for(cfg, translated)
+        escalate = bool(unavailable) and tier == "quick"
+        report["escalated"] = unavailable if escalate else []
         for st in cfg["streams"]:
             n = st[tier]["cases"]
-            res = run_stream(st["name"], seed, n, st[tier]["args"])
-            report["streams"][st["name"]] = {"cases": len(res), "args": st[tier]["args"]}
+            args = st[tier]["args"]
+            if escalate:
+                n = min(st["thorough"]["cases"], 10 * n)
+                args = st["thorough"]["args"]
+            res = run_stream(st["name"], seed, n, args)
+            report["streams"][st["name"]] = {"cases": len(res), "args": args}
             for line, v, rr in res:
                 evaluations += 1
                 key = v.split(" ")[0] + " " + (v.split(" ")[1] if (v.startswith("FAIL") or v.startswith("ok timeout") or v.startswith("ok driver-timeout") or v.startswith("ok rejected")) and " " in v else "")
@@ -402,6 +429,7 @@ def run_property(pid, tier, seed):
             "constants_from_source": consts,
             "definitions_translated_from_source": translated,
             "translator_route_unavailable": [t for t in translated if "UNTRANSLATED" in t],
+            "escalated_because_untranslated": report.get("escalated", []),
             "broken": broken,
             "explanation": cfg.get("explanation", ""),
         },
